@@ -502,6 +502,16 @@ pub struct Script {
     /// once (or, for 3, the reset one not at all). No simulator-sent signals.
     #[serde(default)]
     pub divert: Option<u8>,
+    /// the shell is interactive (`-i`): a built-in that blocks - `read` - can
+    /// be interrupted by SIGINT, and signals caught while it runs are noted by
+    /// a helper next to it
+    #[serde(default)]
+    pub interactive: bool,
+    /// naps before each line of the shell's standard input (a pipe written by
+    /// a slow feeder): one line for each `read` of the script, which blocks
+    /// in the main shell until its line arrives
+    #[serde(default)]
+    pub feed: Vec<u32>,
 }
 
 fn divert_script(v: u8) -> Vec<String> {
@@ -562,6 +572,8 @@ fn gen_script(rng: &mut Rng, tier: Tier) -> Script {
             max_signals: 0,
             ending: 0,
             divert: Some(v),
+            interactive: false,
+            feed: Vec::new(),
         };
     }
     let trap1 = true;
@@ -604,7 +616,17 @@ fn gen_script(rng: &mut Rng, tier: Tier) -> Script {
         *w += 1;
         format!("w{}", *w)
     };
+    let interactive = rng.below(4) == 0;
+    // (an interactive shell may trap a signal that was ignored on entry)
+    let trap2 = if interactive && trap2 == 3 { 1 } else { trap2 };
+    let reads = rng.below(3) == 0 || interactive;
+    let mut feed: Vec<u32> = Vec::new();
     for i in 0..n {
+        if reads && rng.below(4) == 0 && feed.len() < 3 {
+            // the main shell itself blocks in `read` until the feeder delivers the line
+            feed.push(rng.range(2, 7));
+            lines.push(format!("read r{i}; echo \"r=$r{i} ?=$?\""));
+        }
         let line = match rng.below(13) {
             0 | 1 => format!("echo {}", word(&mut w)),
             2 | 3 => format!("rc {}; echo \"?=$?\"", rng.pick(&[0u8, 1, 5, 42])),
@@ -638,6 +660,8 @@ fn gen_script(rng: &mut Rng, tier: Tier) -> Script {
         max_signals: rng.range(1, 4),
         ending,
         divert: None,
+        interactive,
+        feed,
     }
 }
 
@@ -655,6 +679,7 @@ fn spec_of(s: &Script) -> ScriptSpec {
     ScriptSpec {
         script: s.lines.join("\n") + "\n",
         dash_c: true,
+        options: if s.interactive { vec!["-i".into()] } else { Vec::new() },
         ..Default::default()
     }
 }
@@ -785,18 +810,25 @@ fn run_script_case(s: &Script, cfg: &SimConfig, decider: Decider) -> (Observed, 
     // the same script without signals gives the expected stdout and status
     let base_cfg = SimConfig::default();
     let ignore_usr2 = s.trap2 == 3;
-    let setup = move |w: &mut crate::world::World| {
+    let feed = s.feed.clone();
+    let setup = |w: &mut crate::world::World| {
         if ignore_usr2 {
             w.system.sigaction(SIGUSR2, Disposition::Ignore).ok();
         }
+        if !feed.is_empty() {
+            crate::shellrun::plumb_slow_stdin(
+                w,
+                feed.iter().enumerate().map(|(j, nap)| (*nap as u64, format!("d{j} x\n").into_bytes())).collect(),
+            );
+        }
     };
-    let base = run_script_with(&spec_of(s), &base_cfg, Decider::record(Rng::new(1)), setup, signal_env(s, false));
+    let base = run_script_with(&spec_of(s), &base_cfg, Decider::record(Rng::new(1)), &setup, signal_env(s, false));
     if ignore_usr2 && !base.stdout.contains("trap=") {
         return (base, Some(("trace".into(), "trace".into(), "the script did not report the status of the refused trap".into())));
     }
     // (POSIX: no error need be reported for the refused trap; what matters is
     // that the action never runs and the signal stays ignored - checked below)
-    let obs = run_script_with(&spec_of(s), cfg, decider, setup, signal_env(s, true));
+    let obs = run_script_with(&spec_of(s), cfg, decider, &setup, signal_env(s, true));
     let v = check_script(s, &base, &obs);
     (obs, v)
 }
@@ -847,6 +879,12 @@ impl Prop for C11 {
             for k in 0..plans {
                 let cfg = draw_config(&mut rng, k);
                 let (obs, v) = run_script_case(&s, &cfg, Decider::record(Rng::stream(seed, 1100 + k as u64, index)));
+                if s.interactive {
+                    stats.count("mode:interactive", 1);
+                }
+                if !s.feed.is_empty() {
+                    stats.count("mode:read-from-slow-stdin", 1);
+                }
                 stats.note_run(script_hash, &obs.outcome, obs.faults_fired);
                 stats.add_counters(&obs.counters);
                 stats.count("engine:delivery-timing", 1);
